@@ -1136,7 +1136,7 @@ def shrink(ctx, exe, container, params, ops, budget=120, seconds=60):
 
 def run(ctx):
     import genall
-    st = genall.run(["HashResize", "AvlBalance"])
+    st = genall.run(["HashResize", "AvlBalance", "ContainersC09", "AvlStepsC09", "KeyValueC09"])
     for g, s in st.items():
         ctx.log("c2g", g, s)
         if s.startswith("FAILED"):
